@@ -12,7 +12,7 @@ def scen(r, i, th=None):
     """one scenario from a family; events are placed >= 25 ms away from the window edges they straddle"""
     th = th if th is not None else r.choice([0, 60, 80, 100])
     fam = r.choice(["single", "burst", "straddle", "rejected_stream", "accepted_stream", "urgent", "slow_handler", "multi_producer",
-                    "empties", "errors", "small_queue", "prio_mix", "runtime_throttle", "runtime_throttle"])
+                    "empties", "errors", "small_queue", "prio_mix", "runtime_throttle", "runtime_throttle", "duplicates"])
     changes = []
     evs, t, nid = [], 20, 1
 
@@ -81,6 +81,16 @@ def scen(r, i, th=None):
         add(t + th + 45, prio="high")
         add(t + th + 50, prio="normal")
         add(t + th + 55, prio="urgent")
+    elif fam == "duplicates":
+        # identical events (same tags and metadata): each of them is an event of its own
+        th = max(th, 80)
+        k = r.choice([2, 3, 4])
+        for j in range(k):
+            evs.append({"id": 1, "at_ms": t + 6 * j, "producer": 0})
+        evs.append({"id": 2, "at_ms": t + 6 * k, "producer": 0})
+        if r.random() < 0.5:
+            evs.append({"id": 2, "at_ms": t + 6 * k + 8, "producer": 0})
+        nid = 3
     elif fam == "runtime_throttle":
         # the throttle is changed while the worker is idle or in the middle of a window
         kind = r.choice(["raise-idle", "lower-mid-accepted", "lower-mid-rejected", "raise-mid", "raise-then-lower"])
@@ -143,9 +153,20 @@ def us(x):
 
 
 def reconstruct(case, o):
-    """-> (received sequence [(R_us, id)], batches [(t_start_us, ids, t_end_us)], filter log, sent, errors)"""
-    filt = {l["id"]: l for l in o["log"] if l["k"] == "filter"}
-    sent = {l["id"]: l for l in o["log"] if l["k"] == "sent"}
+    """-> (received sequence [(R_us, id)], batches [(t_start_us, ids, t_end_us)], filter log, sent, errors).
+    Events may repeat (identical events carry the same id): filter stamps are kept per id in log order."""
+    filt_q, filt = {}, {}
+    for l in o["log"]:
+        if l["k"] == "filter":
+            filt_q.setdefault(l["id"], []).append(l)
+            filt.setdefault(l["id"], l)
+    sent = {}
+    for l in o["log"]:
+        if l["k"] == "sent":
+            if l["id"] in sent:
+                sent[l["id"]] = dict(sent[l["id"]], ok=sent[l["id"]]["ok"] and l["ok"])
+            else:
+                sent[l["id"]] = l
     batches, cur = [], None
     for l in o["log"]:
         if l["k"] == "batch":
@@ -158,16 +179,15 @@ def reconstruct(case, o):
     for (ts, ids, te) in batches:
         r_prev = prev_end
         for i in ids:
-            if i in filt:
-                R = us(filt[i]["t"])
+            if filt_q.get(i):
+                R = us(filt_q[i].pop(0)["t"])
             else:
                 R = max(r_prev, us(sent[i]["t"]) if i in sent else 0)
             seq.append((R, i))
             r_prev = R
         prev_end = te or ts
-    inb = {i for _, ids, _ in batches for i in ids}
-    for i, l in filt.items():
-        if i not in inb:
+    for i, q in filt_q.items():
+        for l in q:                       # filtered but in no batch: rejected, errored -- or lost
             seq.append((us(l["t"]), i))
     seq.sort(key=lambda x: x[0])
     errors = [l for l in o["log"] if l["k"] == "error"]
